@@ -1,6 +1,7 @@
 package main
 
 import (
+	"fmt"
 	"go/types"
 	"sort"
 	"strings"
@@ -30,6 +31,7 @@ func init() {
 	}
 	add("C03", "C03.errs (a consensus function that tests the error of a store read or of another consensus function returns an error on the failing edge, or first asks which error it is: a transient store failure is never turned into — and memoised as — a consensus answer; shared with C01.errs).", as1(consensusErrRule, "C03.errs"))
 	add("C01", "C01.errs (see C03.errs).", as1(consensusErrRule, "C01.errs"))
+	add("C11", "C11.errs (Bootstrap and the insertion / consensus path it replays through end with an error when a database read or an insertion fails: a replay that stops half-way is not reported as a successful recovery; see C03.errs).", as1(consensusErrRule, "C11.errs"))
 	add("C02", "C02.reset (Hashgraph.Reset stores the anchor block and resets the store from the frame on every successful reset, unconditionally: the last block index the next block is numbered from is re-established whatever the database still holds from the node's previous life; shared with C13.reset).", sharedAs(c13reset, map[string]string{"C13.reset": "C02.reset"}))
 	add("C11", "C11.coords (every successful InsertEvent computes the event's coordinates and updates its ancestors' first descendants — replayed events included: what an interrupted insertion left in the database is recomputed, not trusted; shared with C01.coords), C11.samepath (no branch on the insertion / consensus path depends on a Hashgraph field set by Bootstrap: there is no replay mode above the store).", as1(coordsRule, "C11.coords"), as1(samePathRule, "C11.samepath"))
 	add("C01", "C01.coords (see C11.coords: see / strongly-see read only the coordinates InsertEvent computes).", as1(coordsRule, "C01.coords"))
@@ -41,6 +43,10 @@ func init() {
 	add("C13", "C13.everyevent (see C04.everyevent).", tot("C13.everyevent", [][3]string{{HG, "Hashgraph", "GetFrame"}, {HG, "Frame", "SortedFrameEvents"}}, 2))
 	add("C18", "C18.everywitness (the loop that collects the famous witnesses' timestamps in GetFrame adds one per famous witness: no filter — a filter on the values lets a node-local condition, e.g. its own clock, decide whose time counts; see C04.everyevent), C18.local (the functions that compute the frame read no process-local state such as the local clock; see C03.local).", tot("C18.everywitness", [][3]string{{HG, "Hashgraph", "GetFrame"}}, 2), func(p *Prog, r *Report) { localStateRule(p, r, "C18.local", frameFuncs, 10) })
 	add("C14", "C14.accept (nothing of a fast-forward response is adopted unless CheckBlock accepted its block: no shortcut around the signature count; see C12.accept).", sharedAs(c12accept, map[string]string{"C12.accept": "C14.accept"}))
+	add("C10", "C10.digest (what a membership request's signature covers is the whole request body: InternalTransactionBody.Hash digests the receiver itself; see C15.digest).", func(p *Prog, r *Report) { digestRule(p, r, "C10.digest", []string{"InternalTransactionBody"}) })
+	add("C08", "C08.alloc (no make() in the code that handles gossip-port input is sized by an integer a peer supplied — a message field or an element of a Known map — without a two-sided bound: such an allocation panics or exhausts memory on one crafted message).", as1(allocRule, "C08.alloc"))
+	add("C13", "C13.holdback (a joiner records no event before the round at which its validator-set takes effect: addSelfEvent's gate Store.LastRound() >= acceptedRound cannot be bypassed, acceptedRound comes from the join response, and the join promise is answered with the round passed to SetPeerSet; shared with C10.holdback).", as1(holdbackRule, "C13.holdback"))
+	add("C10", "C10.holdback (see C13.holdback).", as1(holdbackRule, "C10.holdback"))
 	add("C01", "C01.mapcut (see C03.mapcut).", as(mapCutRule, "C01.mapcut", consensusFuncs))
 	add("C13", "C13.mapcut (see C03.mapcut, for the functions that build a frame).", as(mapCutRule, "C13.mapcut", frameFuncs))
 }
@@ -277,6 +283,7 @@ func accumulatesIn(lp *loopInfo) ssa.Instruction {
 var passFuncs = [][3]string{
 	{HG, "Hashgraph", "DivideRounds"}, {HG, "Hashgraph", "ProcessDecidedRounds"}, {HG, "Hashgraph", "InsertEvent"},
 	{HG, "Hashgraph", "InsertEventAndRunConsensus"}, {HG, "Hashgraph", "InsertFrameEvent"}, {HG, "Hashgraph", "ReadWireInfo"},
+	{HG, "Hashgraph", "Bootstrap"}, {HG, "Hashgraph", "Reset"},
 }
 
 // errClassifiers: a path that inspects WHICH error it got (and treats one kind as an answer) is an accepted idiom.
@@ -306,10 +313,11 @@ func consensusErrRule(p *Prog, r *Report, rule string) {
 			rs = append(rs, f)
 		}
 	}
-	set := p.reach(rs, func(f *ssa.Function) bool { return !inModule(f) || isStoreImpl(f) })
+	sigPool := p.Func(HG, "Hashgraph", "ProcessSigPool") // block signatures: a signature that cannot be checked now stays in the pool (C09's business)
+	set := p.reach(rs, func(f *ssa.Function) bool { return !inModule(f) || isStoreImpl(f) || f == sigPool })
 	var fs []*ssa.Function
 	for f := range set {
-		if inModule(f) && f.Synthetic == "" && !isStoreImpl(f) && fnPkgPath(f) == modPath+"/"+HG {
+		if inModule(f) && f.Synthetic == "" && !isStoreImpl(f) && f != sigPool && fnPkgPath(f) == modPath+"/"+HG {
 			fs = append(fs, f)
 		}
 	}
@@ -341,7 +349,7 @@ func consensusErrRule(p *Prog, r *Report, rule string) {
 				}
 				// a failed READ of the DAG: a Store method or a method of *Hashgraph
 				recv := recvNamed(cf)
-				if recv != "Store" && recv != "Hashgraph" {
+				if recv != "Store" && recv != "Hashgraph" && recv != "BadgerStore" && !(recv == "" && cf.Pkg().Path() == modPath+"/"+HG) {
 					continue
 				}
 				if nres := f.Signature.Results().Len(); nres == 0 || !isErrorType(f.Signature.Results().At(nres-1).Type()) {
@@ -456,6 +464,8 @@ func absentIsAnAnswer(f *ssa.Function, callee *types.Func, c *ssa.Call) string {
 		return "the walk down the ancestors ends where the stored history ends"
 	case "createRoot/ParticipantEvent":
 		return "a root holds up to ROOT_DEPTH earlier events: fewer when the creator has fewer"
+	case "Bootstrap/dbGetPeerSet":
+		return "a database without a genesis peer-set is an empty database (first start with --bootstrap): nothing to replay"
 	case "DecideRoundReceived/GetRound":
 		return "a joiner's first event can have a round far below the rounds still cached (comment in the code): the search ends"
 	}
@@ -768,4 +778,197 @@ func guardedOnlyByOwnLength(p *Prog, g *ssa.Function, lp *loopInfo, a ssa.Instru
 var conversionFuncs = [][3]string{
 	{HG, "WireEvent", "BlockSignatures"}, {HG, "Event", "WireBlockSignatures"}, {HG, "Event", "ToWire"}, {HG, "Hashgraph", "ReadWireInfo"},
 	{HG, "", "NewBlockFromFrame"}, {HG, "Frame", "SortedFrameEvents"},
+}
+
+/* ---------- C08.alloc (seed C08g): no allocation sized by a number taken from the network ---------- */
+
+// allocRule: in the code that handles gossip-port input, the size of a make() does not depend on an integer a peer
+// supplied — an integer field of a wire type, or an element of an integer-valued map / slice that arrived in a message
+// (SyncRequest.Known …) — unless it is bounded on both sides on every path. make([]T, 0, n) with n < 0 or n too large
+// panics (makeslice: cap out of range); a merely huge n exhausts memory. Either way one message stops the node.
+func allocRule(p *Prog, r *Report, rule string) {
+	r.Rule(rule, 1, "no make() in network-reachable code is sized by a wire-controlled integer without a two-sided bound")
+	R, _ := netReach(p)
+	W := wireTypes(p)
+	isWireField := func(x ssa.Value) bool {
+		fv, base := fieldOf(x)
+		if fv == nil || base == nil {
+			return false
+		}
+		n := namedOf(base.Type())
+		return n != nil && W[n]
+	}
+	intElem := func(t types.Type) bool {
+		var e types.Type
+		switch tt := t.Underlying().(type) {
+		case *types.Map:
+			e = tt.Elem()
+		case *types.Slice:
+			e = tt.Elem()
+		default:
+			return false
+		}
+		bt, ok := e.Underlying().(*types.Basic)
+		return ok && bt.Info()&types.IsInteger != 0
+	}
+	fromWire := func(c ssa.Value) bool {
+		return intElem(c.Type()) && flowsFrom(c, isWireField)
+	}
+	src := func(x ssa.Value) bool {
+		// (a) an integer field of a wire type
+		if fv, _ := fieldOf(x); fv != nil && isWireField(x) {
+			if bt, ok := fv.Type().Underlying().(*types.Basic); ok && bt.Info()&types.IsInteger != 0 {
+				return true
+			}
+		}
+		// (b) an element of an integer container that came in a message
+		switch y := x.(type) {
+		case *ssa.Lookup:
+			return fromWire(y.X)
+		case *ssa.Extract:
+			if nx, ok := y.Tuple.(*ssa.Next); ok {
+				if rg, ok := nx.Iter.(*ssa.Range); ok {
+					return fromWire(rg.X)
+				}
+			}
+			if lk, ok := y.Tuple.(*ssa.Lookup); ok {
+				return fromWire(lk.X)
+			}
+		case *ssa.UnOp:
+			if ia, ok := y.X.(*ssa.IndexAddr); ok {
+				return fromWire(ia.X)
+			}
+		}
+		return false
+	}
+	nAll, nDyn := 0, 0
+	for _, fn := range sortedFuncs(R) {
+		for _, b := range fn.Blocks {
+			for _, in := range b.Instrs {
+				var sizes []ssa.Value
+				switch x := in.(type) {
+				case *ssa.MakeSlice:
+					sizes = []ssa.Value{x.Len, x.Cap}
+				case *ssa.MakeMap:
+					if x.Reserve != nil {
+						sizes = []ssa.Value{x.Reserve}
+					}
+				case *ssa.MakeChan:
+					sizes = []ssa.Value{x.Size}
+				default:
+					continue
+				}
+				nAll++
+				for _, sz := range sizes {
+					if sz == nil {
+						continue
+					}
+					if _, isC := intConst(sz); isC {
+						continue
+					}
+					if _, isLen := isLenOf(unwrap(sz)); isLen {
+						continue
+					}
+					nDyn++
+					if !dependsOn(sz, src) {
+						continue
+					}
+					qUp := func(l Lit) bool {
+						a, bb, _, ok := cmpLit(l) // a > bb or a >= bb
+						if !ok || !(unwrap(bb) == unwrap(sz) || sameOrigin(bb, sz)) {
+							return false
+						}
+						if _, isC := intConst(a); isC {
+							return true
+						}
+						_, isLen := isLenOf(a)
+						return isLen
+					}
+					up, _ := p.allPaths(in, []Pred{qUp}, all(1))
+					low := p.nonNegative(sz, in, 0)
+					r.Check(up && low, rule, fn.Name()+":make-size<-wire-int", p.ipos(in), fnName(fn), "allocation size independent of peer-supplied numbers (or bounded on both sides)",
+						fmt.Sprintf("the size of this make() depends on an integer supplied by a peer (a field or map / slice element of a message) and is not bounded on both sides (upper bound: %v, non-negative: %v): a hugely negative or large value panics (makeslice: cap out of range) or exhausts memory — one message stops the node", up, low))
+				}
+			}
+		}
+	}
+	r.Check(nAll > 0, rule, "make-sites-examined", "-", "", "make() sites in network-reachable code were found", "no make() found in network-reachable code (rule would be vacuous)")
+	r.Note("%s: %d make() sites in %d network-reachable functions, %d with a non-constant, non-len size", rule, nAll, len(R), nDyn)
+}
+
+/* ---------- C10.holdback / C13.holdback (seed C13g) ---------- */
+
+// holdbackRule: a joiner holds back until the hashgraph has reached the round at which the validator-set that includes it
+// takes effect. In core.addSelfEvent every path to the creation of the event (hg.NewEvent) and to its insertion carries
+// the literal Store.LastRound() >= acceptedRound (no other condition opens the gate); acceptedRound is written only with
+// the AcceptedRound of a join response (and -1 at construction); the round a join promise is answered with is the very
+// round passed to Store.SetPeerSet. Events created inside the six-round window are invisible to frames of that window
+// (no root for a participant whose first round lies ahead), so a node that fast-forwards there can never catch up on them.
+func holdbackRule(p *Prog, r *Report, rule string) {
+	r.Rule(rule, 3, "no self-event before the accepted round: addSelfEvent's gate, the writers of acceptedRound, and the round a join promise is answered with")
+	ase := p.Func(NODE, "core", "addSelfEvent")
+	fAcc := p.Field(NODE, "core", "acceptedRound")
+	if ase == nil || fAcc == nil {
+		r.Anchor(rule, "node.(*core).addSelfEvent / core.acceptedRound")
+		return
+	}
+	q := func(l Lit) bool {
+		a, b, _, ok := cmpLit(l) // a > b or a >= b
+		if !ok {
+			return false
+		}
+		return flowsFromCall(a, storeM("LastRound"), 0) && depOnFieldVar(b, fAcc) && flowsFrom(b, func(v ssa.Value) bool { fv, _ := fieldOf(v); return fv == fAcc })
+	}
+	n := 0
+	for _, m := range []fnMatch{named(HG + ".NewEvent"), named(NODE + ".core.signAndInsertSelfEvent")} {
+		for _, c := range callsIn(ase, m) {
+			n++
+			g, _ := p.allPaths(c, []Pred{q}, all(1))
+			r.Check(g, rule, "addSelfEvent:"+shortName(calleeFunc(c.Common()))+":LastRound>=acceptedRound", p.ipos(c), fnName(ase), "reached only when the hashgraph's last round has reached acceptedRound",
+				"a path reaches this call without Store.LastRound() >= acceptedRound: the node records events before the validator-set that includes it takes effect; frames of that window carry no root for it, and a node that fast-forwards there cannot follow")
+		}
+	}
+	if n == 0 {
+		r.Fail(rule, "addSelfEvent:gate", p.pos(ase.Pos()), fnName(ase), "addSelfEvent neither creates nor inserts an event (anchors NewEvent / signAndInsertSelfEvent not found)")
+	}
+	// writers of acceptedRound
+	var bad []string
+	nw := 0
+	for _, w := range p.writersOf(fAcc) {
+		if w.Fresh {
+			continue
+		}
+		nw++
+		if k, isC := intConst(w.Val); isC && k == -1 {
+			continue
+		}
+		if flowsFromField(w.Val, "AcceptedRound") {
+			continue
+		}
+		bad = append(bad, fnName(w.Fn)+"@"+p.ipos(w.Instr))
+	}
+	r.Check(len(bad) == 0, rule, "core.acceptedRound:writers", "-", "", "set only from a join response's AcceptedRound", "acceptedRound is also written at "+strings.Join(bad, ", ")+" with a value that is not the AcceptedRound of a join response")
+	// the promise is answered with the effective round
+	pait := p.Func(NODE, "core", "processAcceptedInternalTransactions")
+	if pait == nil {
+		r.Anchor(rule, "node.(*core).processAcceptedInternalTransactions")
+		return
+	}
+	var eff ssa.Value
+	for _, c := range callsIn(pait, storeM("SetPeerSet")) {
+		eff = argN(c, 0)
+	}
+	nr := 0
+	for _, c := range callsIn(pait, named(NODE+".joinPromise.respond")) {
+		if k, isC := c.Common().Args[len(c.Common().Args)-3].(*ssa.Const); isC && k.Value != nil && k.Value.String() == "false" {
+			continue // refusal
+		}
+		nr++
+		rd := c.Common().Args[len(c.Common().Args)-2]
+		ok := eff != nil && (unwrap(rd) == unwrap(eff) || sameOrigin(rd, eff) || flowsFrom(rd, func(v ssa.Value) bool { return v == eff || unwrap(v) == unwrap(eff) }))
+		r.Check(ok, rule, "processAcceptedInternalTransactions:respond(effective round)", p.ipos(c), fnName(pait), "an accepted join is answered with the round passed to SetPeerSet", "the round given to the joiner is not the round at which its validator-set was recorded")
+	}
+	if nr == 0 {
+		r.Fail(rule, "processAcceptedInternalTransactions:respond", p.pos(pait.Pos()), fnName(pait), "no accepting respond() call found")
+	}
 }
